@@ -520,6 +520,12 @@ func (rn *runner) Step(ctx *core.Ctx, op []string) string {
 		items := make([]shed.Item, len(ks))
 		for j, k := range ks {
 			items[j] = shed.Item{Address: k}
+			// Fill must return what the index stores, whatever value fields the caller's item carries: hand it a
+			// stale value (only where the stored value is non-empty or absent — Item.Merge by design lets the caller's
+			// field through when the stored field is the zero value)
+			if v, have := rn.ref[i][string(k)]; op[0] == "fill" && (!have || len(v) > 0) {
+				items[j].Data = []byte{0xee, 0xee}
+			}
 		}
 		if op[0] == "hasm" {
 			yes, err := rn.idx[i].HasMulti(items...)
